@@ -22,12 +22,14 @@ def det_scenarios(seed, tier):
     scs = [s for s in pipe_epoch.scenarios(seed, "quick") if True]
     for s in scs:
         s["executor"] = "seq"           # the statement is about the sequential executor
+    modular = [{"seed": seed * 977 + 1, "popsize": 12, "executor": "seq", "start": "modular", "fitness": 6, "epochs": 8, "preset": 5},
+               {"seed": seed * 977 + 2, "popsize": 20, "executor": "seq", "start": "modular", "fitness": 7, "epochs": 8, "preset": 0}]
     if tier == "quick":
-        picked = scs[::4][:10]
+        picked = scs[::4][:10] + modular
         for s in picked:
             s["epochs"] = 8
     else:
-        picked = scs
+        picked = scs + modular + [dict(m, seed=m["seed"] + 10, preset=(m["preset"] + 1) % 6) for m in modular]
         for i, s in enumerate(picked):
             s["epochs"] = 40 if s["popsize"] <= 20 else 20
             s["seed"] = seed * 7919 + i
@@ -38,7 +40,7 @@ def det_scenarios(seed, tier):
 def c17(ctx, replay):
     thorough = ctx.tier == "thorough"
     nproc = 5 if thorough else 3
-    ctx.rule = ("scenarios = constructor (NewPopulation from two start genomes, NewPopulationRandom, ReadPopulation) x option preset x "
+    ctx.rule = ("scenarios = constructor (NewPopulation from two non-modular start genomes and a modular one with two modules, NewPopulationRandom, ReadPopulation) x option preset x "
                 "fitness family x population size, sequential executor; each list of scenarios is run in %d separate processes under "
                 "different GOMAXPROCS / GOGC / environment size / heap ballast / an unrelated clock-seeded evolution before re-seeding / "
                 "forced collections; every construction and epoch is logged as SHA-1 digests of the exact float64 bit patterns of all "
